@@ -57,6 +57,8 @@ TRUSTED_EXTRA = ["scripted search / minimiser objects substituted from outside (
 def regenerate(ctx: Ctx) -> None:
     ctx.gen_status.update(ktn_cfg.regenerate(["add_minimum", "add_ts", "__init__", "reset_network"]))
     ctx.gen_status.update(sim_tr.regenerate())
+    from translate import transcripts as _tr
+    ctx.gen_status.update(_tr.constructor_wiring(['NetworkSampling', 'StandardSimilarity']))
 
 
 # ----------------------------------------------------------------------------- scripted components
